@@ -25,13 +25,14 @@ RULE = ("seeded op sequences over NM/Powell/DE/DE2 with scripted cost models (pl
         "boxes, idempotent constraints (pure/in-place/aliasing), penalties, DE strategies; oracle evaluated at every iteration "
         "boundary (callback) and after every op; non-trivial = more than one _Step and more than one cost call; distinct = trace digests")
 ASSUMPTIONS = ["constraints deterministic, idempotent, box-compatible (generator + plan validity check)",
-               "with an array-valued cost only the reducers max/min/first are generated (mystic computes R(y+p); identical to R(y)+p for those)",
+               "with an array-valued cost (1 to 3 components) the reducers max/min/first/sum-of-squares/sum-of-abs are generated; the model mirrors mystic: R(y + p) with the penalty added to every component",
                "member-energy equality is asserted only while objective-defining settings are unchanged since the first iteration",
                "randomising range mode clip=False is not generated here (covered by C02)"]
 LEVEL_TEXT = ("seeded search over configurations and API histories; the reported best and every member are recomputed from the "
               "logged real cost calls and the peers' pure twins at every iteration boundary")
 LEVEL_NOTE = "trusts the scripted peers' call log; sampling, not proof"
-KNOBS = dict(p_bounds=0.45, p_constraint=0.35, p_penalty=0.4, p_vector=0.15, max_ops=6, p_midrun_set=0.25)
+KNOBS = dict(p_bounds=0.45, p_constraint=0.35, p_penalty=0.4, p_vector=0.15, max_ops=6, p_midrun_set=0.25,
+             reducers=('max', 'min', 'first', 'sumsq', 'sumabs'))
 ORACLES = [oracles.EvaluatedOptimum]
 
 def _gen_plan(seed, tier):
